@@ -1,5 +1,6 @@
 """C04 - prefetch and parallel map are transparent: same examples, same order."""
 from .. import pargen, parrun, parprops
+from .. import workload as W
 from ..parprops import COMPONENTS, ASSUMPTIONS  # noqa
 
 PROP = 'C04'
@@ -19,7 +20,8 @@ RULE = ('family = one generated pipeline (source, 0-3 upstream stages, one prefe
         'ALL schedules with exactly one forced context switch.')
 PROBES = ['another_pipeline_used_first_in_the_same_run', 'endless_input_first_k_compared',
           'all_single_preemption_schedules_of_a_tiny_workload', 'items_refused',
-          'later_task_finished_first', 'several_hundred_examples_behind_a_pool']
+          'later_task_finished_first', 'several_hundred_examples_behind_a_pool',
+          'delivered_stream_equals_the_abstract_model']
 BUDGET = {
     'quick': {'families': 6000, 'wall_cap': 420, 'shrink_s': 15},
     'thorough': {'families': 60000, 'wall_cap': 5400, 'shrink_s': 40},
@@ -128,6 +130,36 @@ def _out_of_order_probe(res, out):
         out['probes']['later_task_finished_first'] = 1
 
 
+def _check_against_model(case, res, out):
+    """Independent of the sequential reference (which is built from the same
+    stage classes): where the abstract interpreter predicts the provenance of
+    every delivered element, an iteration that ran to its end must deliver
+    exactly those elements in that order."""
+    if out['violations'] or case.get('take') is not None:
+        return
+    a = pargen.abs_eval(case['desc'])
+    if a is None or a.elems is None:
+        return
+    want = [tuple(sorted(e)) for e in a.elems]
+    pn = parprops.path_name(case['desc'])
+    for ep, p in enumerate(res['epochs']):
+        if p['end'] != 'exhausted':
+            continue
+        got = [tuple(sorted(W.src_ids(x))) for x in p['out']]
+        if got != want:
+            n_ = min(len(got), len(want))
+            i = next((j for j in range(n_) if got[j] != want[j]), n_)
+            out['violations'].append(parprops.viol(
+                'output_differs_from_model', 'output_differs_from_model:%s' % pn,
+                'epoch %d: delivered %d elements, the pipeline description yields %d; first '
+                'difference at %d: source examples %s vs %s (the sequential build agrees with '
+                'the delivered stream: a stage common to both is off)'
+                % (ep, len(got), len(want), i, got[i] if i < len(got) else '<end>',
+                   want[i] if i < len(want) else '<end>')))
+            return
+    out['probes']['delivered_stream_equals_the_abstract_model'] = 1
+
+
 def run(case):
     res = parrun.run_par_case(case)
     out = parprops.base_outcome(case, res)
@@ -138,6 +170,7 @@ def run(case):
         out['probes']['all_single_preemption_schedules_of_a_tiny_workload'] = 1
     if not parprops.check_failure(case, res, out):
         parprops.check_transparent(case, res, out)
+        _check_against_model(case, res, out)
         if case.get('take') is not None:
             out['probes']['endless_input_first_k_compared'] = 1
         if case.get('prelude'):
